@@ -1,1 +1,564 @@
-(* Proofs/AggClass.v -- lemmas; see DESIGN.md section 7 *)
+(* Proofs/AggClass.v -- property C09: class entries reflect the cpp_class structure.
+   Theorems about Model/Aggregator.v (state machine) against the nested view of Spec/AggSpec.v. *)
+From Coq Require Import String List NArith Bool Arith Lia.
+From CMinx Require Import Base.Str Model.Lexer Model.Parser Model.Writer Model.DocTypes
+     Model.Aggregator Spec.AggSpec.
+Import ListNotations.
+
+(* ---- spec ---- *)
+
+(* every cpp_class header in the forest has at least one single argument *)
+Fixpoint class_hdrs_ok_node (n : node) : bool :=
+  match n with
+  | NCmd _ _ => true
+  | NDangling _ => true
+  | NDef _ _ body _ =>
+      (fix all (l : list node) : bool :=
+         match l with [] => true | x :: r => class_hdrs_ok_node x && all r end) body
+  | NClass _ hdr body _ =>
+      negb (match singles hdr with [] => true | _ :: _ => false end)
+      && (fix all (l : list node) : bool :=
+            match l with [] => true | x :: r => class_hdrs_ok_node x && all r end) body
+  end.
+Definition class_hdrs_ok (l : list node) : bool := forallb class_hdrs_ok_node l.
+
+(* no cpp_class in the forest carries a doccomment (the shape for which F9 cannot strike) *)
+Fixpoint no_doc_class_node (n : node) : bool :=
+  match n with
+  | NCmd _ _ => true
+  | NDangling _ => true
+  | NDef _ _ body _ =>
+      (fix all (l : list node) : bool :=
+         match l with [] => true | x :: r => no_doc_class_node x && all r end) body
+  | NClass doc _ body _ =>
+      (match doc with None => true | Some _ => false end)
+      && (fix all (l : list node) : bool :=
+            match l with [] => true | x :: r => no_doc_class_node x && all r end) body
+  end.
+Definition no_doc_class (l : list node) : bool := forallb no_doc_class_node l.
+
+(* the method a cpp_member / cpp_constructor command declares *)
+Definition decl_method (is_ctor : bool) (name parent : str) (types : list str)
+           (doc : str) (docd : bool) : method :=
+  {| m_name := name; m_doc := doc; m_parent := parent; m_types := types; m_params := [];
+     m_ctor := is_ctor; m_macro := false; m_docd := docd |}.
+
+(* the attribute a cpp_attr command declares *)
+Definition decl_attr (c : cmd) (parent name : str) (doc : str) (docd : bool) : attribute :=
+  {| a_name := name; a_doc := doc; a_parent := parent; a_default := nth_error (singles c) 2;
+     a_docd := docd |}.
+
+(* the doc text and ghost flag an element hands to its handler *)
+Definition doc_of (doc : option str) : str :=
+  match doc with Some d => clean_doc_text d | None => [] end.
+Definition docd_of (doc : option str) : bool :=
+  match doc with Some _ => true | None => false end.
+
+(* items of a class body that belong to THIS class: NDef bodies are transparent,
+   nested NClass nodes are not entered *)
+Definition attr_item (c : cmd) : list (str * str * option str) :=
+  if kind_is c (s"cpp_attr") then
+    match singles c with
+    | parent :: name :: _ => [(parent, name, nth_error (singles c) 2)]
+    | _ => []
+    end
+  else [].
+
+Definition method_item (is_ctor : bool) (c : cmd) : list (str * str * list str) :=
+  if kind_is c (if is_ctor then s"cpp_constructor" else s"cpp_member") then
+    match singles c with
+    | name :: parent :: types => [(name, parent, types)]
+    | _ => []
+    end
+  else [].
+
+Fixpoint node_attrs (n : node) : list (str * str * option str) :=
+  match n with
+  | NCmd _ c => attr_item c
+  | NDangling _ => []
+  | NDef _ _ body _ =>
+      (fix go (l : list node) := match l with [] => [] | x :: r => node_attrs x ++ go r end) body
+  | NClass _ _ _ _ => []
+  end.
+Definition class_attrs (body : list node) : list (str * str * option str) :=
+  flat_map node_attrs body.
+
+Fixpoint node_method_decls (is_ctor : bool) (n : node) : list (str * str * list str) :=
+  match n with
+  | NCmd _ c => method_item is_ctor c
+  | NDangling _ => []
+  | NDef _ _ body _ =>
+      (fix go (l : list node) :=
+         match l with [] => [] | x :: r => node_method_decls is_ctor x ++ go r end) body
+  | NClass _ _ _ _ => []
+  end.
+Definition class_method_decls (is_ctor : bool) (body : list node) : list (str * str * list str) :=
+  flat_map (node_method_decls is_ctor) body.
+
+Fixpoint node_inner (n : node) : list str :=
+  match n with
+  | NCmd _ _ => []
+  | NDangling _ => []
+  | NDef _ _ body _ =>
+      (fix go (l : list node) := match l with [] => [] | x :: r => node_inner x ++ go r end) body
+  | NClass _ hdr _ _ => match singles hdr with [] => [] | name :: _ => [name] end
+  end.
+Definition class_inner (body : list node) : list str := flat_map node_inner body.
+
+Definition attr_view (a : attribute) : str * str * option str :=
+  (a_parent a, a_name a, a_default a).
+Definition method_view (m : method) : str * str * list str :=
+  (m_name m, m_parent m, m_types m).
+
+(* the four class-owned lists of an entry (empty for non-class entries) *)
+Definition e_inner (e : entry) : list str :=
+  match e with EClass _ _ _ inner _ _ _ => inner | _ => [] end.
+Definition e_ctors (e : entry) : list method :=
+  match e with EClass _ _ _ _ ct _ _ => ct | _ => [] end.
+Definition e_members (e : entry) : list method :=
+  match e with EClass _ _ _ _ _ me _ => me | _ => [] end.
+Definition e_attrs (e : entry) : list attribute :=
+  match e with EClass _ _ _ _ _ _ at_ => at_ | _ => [] end.
+Definition is_class_entry (e : entry) : bool :=
+  match e with EClass _ _ _ _ _ _ _ => true | _ => false end.
+
+(* ---- generic list / string helpers ------------------------------------------------ *)
+
+Lemma str_eqb_refl : forall a, str_eqb a a = true.
+Proof.
+  induction a as [|x a IH]; cbn [str_eqb]; [reflexivity|].
+  rewrite N.eqb_refl, IH. reflexivity.
+Qed.
+
+Lemma str_eqb_eq : forall a b, str_eqb a b = true <-> a = b.
+Proof.
+  induction a as [|x a IH]; intros [|y b]; cbn [str_eqb]; split; intro H;
+    try reflexivity; try discriminate.
+  - apply andb_true_iff in H. destruct H as [H1 H2].
+    apply N.eqb_eq in H1. apply IH in H2. subst. reflexivity.
+  - inversion H; subst. rewrite N.eqb_refl. cbn [andb]. apply IH. reflexivity.
+Qed.
+
+Lemma str_eqb_neq : forall a b, str_eqb a b = false <-> a <> b.
+Proof.
+  intros a b. split.
+  - intros H E. apply str_eqb_eq in E. congruence.
+  - intros H. destruct (str_eqb a b) eqn:E; [|reflexivity].
+    apply str_eqb_eq in E. contradiction.
+Qed.
+
+Lemma length_update_nth : forall A (f : A -> A) l n, length (update_nth n f l) = length l.
+Proof.
+  intros A f. induction l as [|x l IH]; intros [|n]; cbn [update_nth length]; auto.
+Qed.
+
+Lemma nth_error_update_nth_eq : forall A (f : A -> A) l n x,
+    nth_error l n = Some x -> nth_error (update_nth n f l) n = Some (f x).
+Proof.
+  intros A f. induction l as [|y l IH]; intros [|n] x H; cbn in H |- *; try discriminate.
+  - inversion H; reflexivity.
+  - apply IH; exact H.
+Qed.
+
+Lemma nth_error_update_nth_neq : forall A (f : A -> A) l n i,
+    i <> n -> nth_error (update_nth n f l) i = nth_error l i.
+Proof.
+  intros A f. induction l as [|y l IH]; intros [|n] [|i] H; cbn; try reflexivity.
+  - contradiction.
+  - apply IH. lia.
+Qed.
+
+Lemma update_nth_none : forall A (f : A -> A) l n,
+    nth_error l n = None -> update_nth n f l = l.
+Proof.
+  intros A f. induction l as [|y l IH]; intros [|n] H; cbn in H |- *; try reflexivity.
+  - discriminate.
+  - f_equal. apply IH. exact H.
+Qed.
+
+Lemma update_last_snoc : forall A (f : A -> A) l x, update_last f (l ++ [x]) = l ++ [f x].
+Proof.
+  intros A f l x. unfold update_last. rewrite rev_app_distr. cbn [rev app].
+  rewrite rev_involutive. reflexivity.
+Qed.
+
+Lemma update_last_nil : forall A (f : A -> A), update_last f [] = [].
+Proof. reflexivity. Qed.
+
+Lemma skipn2_guard : forall A (l : list A),
+    (if Nat.ltb 2 (length l) then skipn 2 l else []) = skipn 2 l.
+Proof.
+  intros A [|a [|b [|c l]]]; reflexivity.
+Qed.
+
+(* evaluate str_eqb / is_def_name on closed arguments only *)
+Ltac eval_closed :=
+  repeat match goal with
+         | |- context [str_eqb ?a ?b] =>
+             let v := eval vm_compute in (str_eqb a b) in
+             match v with
+             | true => change (str_eqb a b) with true
+             | false => change (str_eqb a b) with false
+             end
+         | |- context [is_def_name ?a] =>
+             let v := eval vm_compute in (is_def_name a) in
+             match v with
+             | true => change (is_def_name a) with true
+             | false => change (is_def_name a) with false
+             end
+         end.
+
+(* ---- Q2: members and attributes attach to the top class only ----------------------- *)
+
+Theorem member_attaches_to_top_only :
+  forall is_ctor c doc docd st cidx rest name parent types n d su inner ct me at_,
+    singles c = name :: parent :: types ->
+    class_stack st = Some cidx :: rest ->
+    nth_error (documented st) cidx = Some (EClass n d su inner ct me at_) ->
+    let m := decl_method is_ctor name parent types doc docd in
+    let st' := process_member is_ctor c doc docd st in
+    nth_error (documented st') cidx
+      = Some (if is_ctor then EClass n d su inner (ct ++ [m]) me at_
+              else EClass n d su inner ct (me ++ [m]) at_)
+    /\ (forall i, i <> cidx -> nth_error (documented st') i = nth_error (documented st) i)
+    /\ length (documented st') = length (documented st)
+    /\ origins st' = origins st
+    /\ class_stack st' = class_stack st
+    /\ def_stack st' = def_stack st
+    /\ awaiting st' = AwMethod cidx is_ctor.
+Proof.
+  intros is_ctor c doc docd st cidx rest name parent types n d su inner ct me at_ Hs Hcs Hn m st'.
+  subst st' m. unfold process_member. rewrite Hs, Hcs. cbn [length Nat.ltb Nat.leb nth skipn].
+  cbn [with_awaiting with_docs documented origins class_stack def_stack awaiting].
+  repeat split.
+  - erewrite nth_error_update_nth_eq by exact Hn.
+    cbn [add_method]. destruct is_ctor; reflexivity.
+  - intros i Hi. apply nth_error_update_nth_neq. exact Hi.
+  - apply length_update_nth.
+  - exact Hcs.
+Qed.
+
+Theorem attr_attaches_to_top_only :
+  forall c doc docd st cidx rest parent name more n d su inner ct me at_,
+    singles c = parent :: name :: more ->
+    class_stack st = Some cidx :: rest ->
+    nth_error (documented st) cidx = Some (EClass n d su inner ct me at_) ->
+    let a := decl_attr c parent name doc docd in
+    let st' := process_attr c doc docd st in
+    nth_error (documented st') cidx = Some (EClass n d su inner ct me (at_ ++ [a]))
+    /\ (forall i, i <> cidx -> nth_error (documented st') i = nth_error (documented st) i)
+    /\ length (documented st') = length (documented st)
+    /\ origins st' = origins st
+    /\ class_stack st' = class_stack st
+    /\ def_stack st' = def_stack st
+    /\ awaiting st' = awaiting st.
+Proof.
+  intros c doc docd st cidx rest parent name more n d su inner ct me at_ Hs Hcs Hn a st'.
+  subst st' a. unfold process_attr, decl_attr. rewrite Hs, Hcs.
+  cbn [length Nat.ltb Nat.leb nth].
+  cbn [with_docs documented origins class_stack def_stack awaiting].
+  repeat split.
+  - erewrite nth_error_update_nth_eq by exact Hn. reflexivity.
+  - intros i Hi. apply nth_error_update_nth_neq. exact Hi.
+  - apply length_update_nth.
+  - exact Hcs.
+Qed.
+
+(* the default is recorded iff a third argument is given ... *)
+Lemma attr_default_iff : forall c parent name doc docd,
+    a_default (decl_attr c parent name doc docd) = None <-> length (singles c) < 3.
+Proof.
+  intros c parent name doc docd. cbn [decl_attr a_default]. rewrite nth_error_None. lia.
+Qed.
+
+(* ... and then it is the third argument *)
+Lemma attr_default_third : forall c parent name v more doc docd,
+    singles c = parent :: name :: v :: more ->
+    a_default (decl_attr c parent name doc docd) = Some v.
+Proof.
+  intros c parent name v more doc docd Hs. cbn [decl_attr a_default]. rewrite Hs. reflexivity.
+Qed.
+
+(* too few arguments, or no class open, or the open class is hidden: nothing happens *)
+Lemma member_ignored : forall is_ctor c doc docd st,
+    length (singles c) < 2 \/ class_stack st = [] \/ (exists r, class_stack st = None :: r) ->
+    process_member is_ctor c doc docd st = st.
+Proof.
+  intros is_ctor c doc docd st H. unfold process_member.
+  destruct (Nat.ltb (length (singles c)) 2) eqn:E; [reflexivity|].
+  apply Nat.ltb_ge in E.
+  destruct H as [H|[H|[r H]]]; [lia| |]; rewrite H; reflexivity.
+Qed.
+
+Lemma attr_ignored : forall c doc docd st,
+    length (singles c) < 2 \/ class_stack st = [] \/ (exists r, class_stack st = None :: r) ->
+    process_attr c doc docd st = st.
+Proof.
+  intros c doc docd st H. unfold process_attr.
+  destruct (Nat.ltb (length (singles c)) 2) eqn:E; [reflexivity|].
+  apply Nat.ltb_ge in E.
+  destruct H as [H|[H|[r H]]]; [lia| |]; rewrite H; reflexivity.
+Qed.
+
+(* ---- Q3: a class inside a class --------------------------------------------------- *)
+
+Theorem inner_class_registered :
+  forall c doc docd st cidx rest name supers n d su inner ct me at_,
+    singles c = name :: supers ->
+    class_stack st = Some cidx :: rest ->
+    nth_error (documented st) cidx = Some (EClass n d su inner ct me at_) ->
+    let st' := process_class c doc docd st in
+    documented st'
+      = update_nth cidx (fun _ => EClass n d su (inner ++ [name]) ct me at_) (documented st)
+        ++ [EClass name doc supers [] [] [] []]
+    /\ nth_error (documented st') (length (documented st))
+       = Some (EClass name doc supers [] [] [] [])
+    /\ nth_error (documented st') cidx = Some (EClass n d su (inner ++ [name]) ct me at_)
+    /\ (forall i, i <> cidx -> i < length (documented st) ->
+                  nth_error (documented st') i = nth_error (documented st) i)
+    /\ length (documented st') = S (length (documented st))
+    /\ origins st' = origins st ++ [docd]
+    /\ class_stack st' = Some (length (documented st)) :: class_stack st
+    /\ def_stack st' = def_stack st
+    /\ awaiting st' = awaiting st.
+Proof.
+  intros c doc docd st cidx rest name supers n d su inner ct me at_ Hs Hcs Hn st'.
+  subst st'. unfold process_class. rewrite Hs, Hcs.
+  cbn [with_class_stack with_docs append documented origins class_stack def_stack awaiting].
+  assert (Hlt : cidx < length (documented st)).
+  { apply nth_error_Some. rewrite Hn. discriminate. }
+  assert (Hupd : update_nth cidx (add_inner name) (documented st ++ [EClass name doc supers [] [] [] []])
+                 = update_nth cidx (fun _ => EClass n d su (inner ++ [name]) ct me at_) (documented st)
+                   ++ [EClass name doc supers [] [] [] []]).
+  { clear Hcs. revert cidx Hn Hlt. generalize (documented st) as l.
+    induction l as [|y l IH]; intros [|k] Hn Hlt; cbn in Hn, Hlt |- *; try lia.
+    - inversion Hn; subst. reflexivity.
+    - f_equal. apply IH; [exact Hn|lia]. }
+  rewrite Hupd.
+  assert (Hlen : length (update_nth cidx (fun _ => EClass n d su (inner ++ [name]) ct me at_)
+                                   (documented st)) = length (documented st))
+    by apply length_update_nth.
+  repeat split.
+  - rewrite nth_error_app2 by lia. rewrite Hlen, Nat.sub_diag. reflexivity.
+  - rewrite nth_error_app1 by lia. erewrite nth_error_update_nth_eq by exact Hn. reflexivity.
+  - intros i Hi Hil. rewrite nth_error_app1 by lia. apply nth_error_update_nth_neq. exact Hi.
+  - rewrite app_length, Hlen. cbn [length]. lia.
+  - rewrite Hcs. reflexivity.
+Qed.
+
+(* with no class open (or a hidden one on top) the new class is only appended and pushed *)
+Theorem outer_class_registered :
+  forall c doc docd st name supers,
+    singles c = name :: supers ->
+    (class_stack st = [] \/ exists r, class_stack st = None :: r) ->
+    let st' := process_class c doc docd st in
+    documented st' = documented st ++ [EClass name doc supers [] [] [] []]
+    /\ origins st' = origins st ++ [docd]
+    /\ class_stack st' = Some (length (documented st)) :: class_stack st
+    /\ def_stack st' = def_stack st
+    /\ awaiting st' = awaiting st.
+Proof.
+  intros c doc docd st name supers Hs Hcs st'. subst st'. unfold process_class. rewrite Hs.
+  destruct Hcs as [Hcs|[r Hcs]]; rewrite Hcs;
+    cbn [with_class_stack with_docs append documented origins class_stack def_stack awaiting];
+    repeat split; rewrite Hcs; reflexivity.
+Qed.
+
+(* an argument-less cpp_class does nothing at all -- in particular it pushes no frame *)
+Lemma class_no_args_noop : forall c doc docd st,
+    singles c = [] -> process_class c doc docd st = st.
+Proof. intros c doc docd st Hs. unfold process_class. rewrite Hs. reflexivity. Qed.
+
+(* ---- the command-kind dispatch ---------------------------------------------------- *)
+
+Definition kind_name (h : handler) : str :=
+  match h with
+  | HFunction => s"function" | HMacro => s"macro" | HCpa => s"cmake_parse_arguments"
+  | HTest => s"ct_add_test" | HSection => s"ct_add_section" | HSet => s"set"
+  | HClass => s"cpp_class" | HMember => s"cpp_member" | HCtor => s"cpp_constructor"
+  | HAttr => s"cpp_attr" | HAddTest => s"add_test" | HOption => s"option"
+  end.
+
+Lemma lookup_handler_kind : forall k h, lookup k handler_table = Some h -> k = kind_name h.
+Proof.
+  intros k h. unfold handler_table. cbn [lookup].
+  repeat (let E := fresh "E" in
+          destruct (str_eqb k _) eqn:E;
+          [apply str_eqb_eq in E; intro H; inversion H; subst; reflexivity|]).
+  discriminate.
+Qed.
+
+Lemma lookup_kind_name : forall h, lookup (kind_name h) handler_table = Some h.
+Proof. intros h; destruct h; vm_compute; reflexivity. Qed.
+
+Ltac eval_lookup :=
+  repeat match goal with
+         | |- context [@lookup handler ?a handler_table] =>
+             let v := eval vm_compute in (@lookup handler a handler_table) in
+             match v with
+             | Some _ => change (@lookup handler a handler_table) with v
+             | None => change (@lookup handler a handler_table) with v
+             end
+         end.
+
+Section WithParams.
+  Variable trigger : str.
+  Variables strip_fn strip_mac strip_mem : str -> str.
+
+  Notation step fl := (agg_step fl trigger strip_fn strip_mac strip_mem).
+  Notation run fl := (agg_run fl trigger strip_fn strip_mac strip_mem).
+  Notation entercmd fl := (enter_command fl trigger strip_fn strip_mac strip_mem).
+  Notation enterdoc := (enter_documented trigger strip_fn strip_mac).
+  Notation runh := (run_handler trigger strip_fn strip_mac).
+
+  Lemma run_app : forall fl a b st,
+      run fl st (a ++ b) = match run fl st a with Ok st1 => run fl st1 b | Crash => Crash end.
+  Proof.
+    intros fl a. induction a as [|e a IH]; intros b st; cbn [app agg_run]; [reflexivity|].
+    destruct (step fl st e) as [st1|]; [apply IH|reflexivity].
+  Qed.
+
+  (* ---- Q4: the next definition supplies the parameter names ----------------------- *)
+
+  Theorem method_params_from_next_definition :
+    forall fl consumed c st cidx is_ctor n d su inner ct me at_ ms0 m,
+      awaiting st = AwMethod cidx is_ctor ->
+      nth_error (documented st) cidx = Some (EClass n d su inner ct me at_) ->
+      (if is_ctor then ct else me) = ms0 ++ [m] ->
+      is_def_name (cmd_kind c) = true ->
+      exists st',
+        entercmd fl consumed c st = Ok st'
+        /\ (let m' := {| m_name := m_name m; m_doc := m_doc m; m_parent := m_parent m;
+                         m_types := m_types m;
+                         m_params := m_params m ++ skipn 2 (map strip_mem (singles c));
+                         m_ctor := m_ctor m;
+                         m_macro := str_eqb (cmd_kind c) (s"macro");
+                         m_docd := m_docd m |} in
+            nth_error (documented st') cidx
+            = Some (if is_ctor then EClass n d su inner (ms0 ++ [m']) me at_
+                    else EClass n d su inner ct (ms0 ++ [m']) at_))
+        /\ (forall i, i <> cidx -> nth_error (documented st') i = nth_error (documented st) i)
+        /\ length (documented st') = length (documented st)
+        /\ origins st' = origins st
+        /\ class_stack st' = class_stack st
+        /\ def_stack st' = (if consumed then def_stack st else None :: def_stack st)
+        /\ awaiting st' = AwNone.
+  Proof.
+    intros fl consumed c st cidx is_ctor n d su inner ct me at_ ms0 m Haw Hn Hms Hdef.
+    unfold cmd_kind in *.
+    set (st2 := with_awaiting AwNone
+                  (with_docs (upd_awaiting_entry (AwMethod cidx is_ctor)
+                                (str_eqb (lower_ascii (c_name c)) (s"macro"))
+                                (skipn 2 (map strip_mem (singles c)))) st)).
+    assert (Hrun : entercmd fl consumed c st
+                   = if consumed then Ok st2 else Ok (with_def_stack (None :: def_stack st2) st2)).
+    { unfold enter_command. cbv zeta. rewrite Haw. rewrite skipn2_guard. fold st2.
+      unfold is_def_name in Hdef. apply orb_true_iff in Hdef.
+      destruct Hdef as [E|E]; apply str_eqb_eq in E; rewrite E; eval_closed;
+        cbn [andb orb negb]; reflexivity. }
+    assert (Hdocs : documented st2
+                    = update_nth cidx
+                        (fun e => match e with
+                                  | EClass n d su inner ct me at_ =>
+                                      if is_ctor
+                                      then EClass n d su inner
+                                             (update_last (upd_method (str_eqb (lower_ascii (c_name c)) (s"macro"))
+                                                                      (skipn 2 (map strip_mem (singles c)))) ct) me at_
+                                      else EClass n d su inner ct
+                                             (update_last (upd_method (str_eqb (lower_ascii (c_name c)) (s"macro"))
+                                                                      (skipn 2 (map strip_mem (singles c)))) me) at_
+                                  | _ => e
+                                  end) (documented st)) by reflexivity.
+    exists (if consumed then st2 else with_def_stack (None :: def_stack st2) st2).
+    split; [rewrite Hrun; destruct consumed; reflexivity|].
+    assert (Hd2 : documented (if consumed then st2 else with_def_stack (None :: def_stack st2) st2)
+                  = documented st2) by (destruct consumed; reflexivity).
+    rewrite Hd2, Hdocs.
+    split; [|split; [|split; [|split; [|split; [|split]]]]].
+    - erewrite nth_error_update_nth_eq by exact Hn.
+      destruct is_ctor; rewrite Hms, update_last_snoc; reflexivity.
+    - intros i Hi. apply nth_error_update_nth_neq. exact Hi.
+    - apply length_update_nth.
+    - destruct consumed; reflexivity.
+    - destruct consumed; reflexivity.
+    - destruct consumed; reflexivity.
+    - destruct consumed; reflexivity.
+  Qed.
+
+  (* ---- what one element does, by command kind -------------------------------------- *)
+
+  Ltac unfold_step Hk :=
+    unfold agg_step, enter_documented, enter_command; cbv zeta;
+    unfold cmd_kind in Hk; rewrite ?Hk; eval_closed; eval_lookup;
+    cbn [andb orb negb run_handler include_flag].
+
+  Lemma step_member : forall fl doc c st,
+      cmd_kind c = s"cpp_member" ->
+      (doc = None -> inc_cpp_member fl = true) ->
+      step fl st (elem_of doc c) = Ok (process_member false c (doc_of doc) (docd_of doc) st).
+  Proof.
+    intros fl [d|] c st Hk Hfl; cbn [elem_of doc_of docd_of].
+    - unfold_step Hk. rewrite Hk. eval_closed. reflexivity.
+    - unfold_step Hk. rewrite (Hfl eq_refl). reflexivity.
+  Qed.
+
+  Lemma step_ctor : forall fl doc c st,
+      cmd_kind c = s"cpp_constructor" ->
+      (doc = None -> inc_cpp_constructor fl = true) ->
+      step fl st (elem_of doc c) = Ok (process_member true c (doc_of doc) (docd_of doc) st).
+  Proof.
+    intros fl [d|] c st Hk Hfl; cbn [elem_of doc_of docd_of].
+    - unfold_step Hk. rewrite Hk. eval_closed. reflexivity.
+    - unfold_step Hk. rewrite (Hfl eq_refl). reflexivity.
+  Qed.
+
+  Lemma step_attr : forall fl doc c st,
+      cmd_kind c = s"cpp_attr" ->
+      (doc = None -> inc_cpp_attr fl = true) ->
+      step fl st (elem_of doc c) = Ok (process_attr c (doc_of doc) (docd_of doc) st).
+  Proof.
+    intros fl [d|] c st Hk Hfl; cbn [elem_of doc_of docd_of].
+    - unfold_step Hk. rewrite Hk. eval_closed. reflexivity.
+    - unfold_step Hk. rewrite (Hfl eq_refl). reflexivity.
+  Qed.
+
+  Lemma step_class : forall fl doc c st,
+      cmd_kind c = s"cpp_class" ->
+      inc_cpp_class fl = true ->
+      step fl st (elem_of doc c) = Ok (process_class c (doc_of doc) (docd_of doc) st).
+  Proof.
+    intros fl [d|] c st Hk Hfl; cbn [elem_of doc_of docd_of].
+    - unfold_step Hk. rewrite Hk, Hfl. eval_closed. reflexivity.
+    - unfold_step Hk. rewrite Hfl. reflexivity.
+  Qed.
+
+  (* F9: with the class flag off, a doccomment-carrying cpp_class pushes twice *)
+  Lemma step_class_doc_flag_off : forall fl d c st,
+      cmd_kind c = s"cpp_class" ->
+      inc_cpp_class fl = false ->
+      step fl st (EDocCmd d c)
+      = Ok (with_class_stack (None :: class_stack (process_class c (clean_doc_text d) true st))
+                             (process_class c (clean_doc_text d) true st)).
+  Proof.
+    intros fl d c st Hk Hfl. unfold_step Hk. rewrite Hk, Hfl. eval_closed. reflexivity.
+  Qed.
+
+  Lemma step_class_undoc_flag_off : forall fl c st,
+      cmd_kind c = s"cpp_class" ->
+      inc_cpp_class fl = false ->
+      step fl st (ECmd c) = Ok (with_class_stack (None :: class_stack st) st).
+  Proof.
+    intros fl c st Hk Hfl. unfold_step Hk. rewrite Hfl. reflexivity.
+  Qed.
+
+  Lemma step_end_class : forall fl c st,
+      cmd_kind c = s"cpp_end_class" ->
+      step fl st (ECmd c) = match class_stack st with
+                            | [] => Crash
+                            | _ :: cs => Ok (with_class_stack cs st)
+                            end.
+  Proof.
+    intros fl c st Hk. unfold_step Hk. reflexivity.
+  Qed.
+
+End WithParams.
